@@ -57,6 +57,10 @@ type Contract struct {
 	Assumed    bool
 	NoInline   bool
 	Loops      map[int]*LoopSpec
+	// CallAsserts: "at call F@n assert [label] expr" — assertions over the function's own locals, checked right before
+	// the n-th (source order) call of F in this function; key "call:F@n"
+	CallAsserts map[string][]*Clause
+	callSeen    map[string]bool
 	Props      map[string]bool // property ids mentioned by labels
 	Obj        *types.Func
 	recvExpr   ast.Expr
@@ -134,7 +138,7 @@ var closureNameRe = regexp.MustCompile(`^(.+)__(\d+)$`)
 var labelRe = regexp.MustCompile(`^\[([A-Za-z0-9_.,\- ]+)\]`)
 
 var clauseKw = map[string]bool{"requires": true, "ensures": true, "modifies": true, "panics": true, "pure": true,
-	"assumed": true, "invariant": true, "decreases": true, "noinline": true}
+	"assumed": true, "invariant": true, "decreases": true, "noinline": true, "at": true}
 
 // parseSpecFile reads //@ lines of one file. pkgPath is the package whose scope resolves unqualified Go names
 // (for prelude files it is set by `//@ package "path"`).
@@ -300,7 +304,7 @@ func (db *SpecDB) parseSpecFile(file string, pkgPath string) {
 			db.Axioms = append(db.Axioms, &Axiom{strings.TrimSpace(rest[:i]), e, rest[i+1:], pkgPath, copyMap(imports)})
 			cur, curLoop = nil, nil
 		case "func", "functype":
-			c := &Contract{File: file, Line: en.ln, PkgPath: pkgPath, Imports: copyMap(imports), SigSrc: body, Loops: map[int]*LoopSpec{}, Props: map[string]bool{}}
+			c := &Contract{File: file, Line: en.ln, PkgPath: pkgPath, Imports: copyMap(imports), SigSrc: body, Loops: map[int]*LoopSpec{}, Props: map[string]bool{}, CallAsserts: map[string][]*Clause{}}
 			sigSrc := body
 			if w == "functype" {
 				// functype pkg.Name(params) results
@@ -336,6 +340,18 @@ func (db *SpecDB) parseSpecFile(file string, pkgPath string) {
 				errf(en.ln, "clause outside a func block")
 				continue
 			}
+			atSite := ""
+			if w == "at" {
+				// at call F@n assert [label] expr
+				f := strings.Fields(rest)
+				if len(f) < 4 || f[0] != "call" || !strings.HasPrefix(f[2], "assert") {
+					errf(en.ln, "expected: at call <Callee>@<n> assert [label] <expr>")
+					continue
+				}
+				atSite = "call:" + f[1]
+				i := strings.Index(rest, "assert")
+				rest = strings.TrimSpace(rest[i+len("assert"):])
+			}
 			label := ""
 			if m := labelRe.FindStringSubmatch(rest); m != nil {
 				label = strings.TrimSpace(m[1])
@@ -352,6 +368,13 @@ func (db *SpecDB) parseSpecFile(file string, pkgPath string) {
 				}
 			}
 			switch w {
+			case "at":
+				e, err := parseExpr(rest)
+				if err != nil {
+					errf(en.ln, "%v", err)
+					continue
+				}
+				cur.CallAsserts[atSite] = append(cur.CallAsserts[atSite], &Clause{Kind: "assert", Label: label, Src: rest, E: e})
 			case "pure":
 				cur.Pure = true
 			case "assumed":
